@@ -1,7 +1,9 @@
 #!/bin/sh
-# runs every registered quick check once; prints one line per check
-cd /verif
+# runs every registered check once (tier = $1, default quick); prints one line per check. Works from any copy of /verif.
+V=$(cd "$(dirname "$0")/.." && pwd)
+cd $V
+TAG=${RUNALL_TAG:-runall}
 for p in $(python3 -c "import json;print(' '.join(c['property_id'] for c in json.load(open('MANIFEST.json'))['checks']))"); do
-  python3-vt verif.py check $p --tier ${1:-quick} > /var/tmp/runall_$p.log 2>&1; rc=$?
-  echo "$p rc=$rc $(tail -1 /var/tmp/runall_$p.log | cut -c1-200)"
+  python3-vt verif.py check $p --tier ${1:-quick} > /var/tmp/${TAG}_$p.log 2>&1; rc=$?
+  echo "$p rc=$rc violations=$(grep -c '^VIOLATION' /var/tmp/${TAG}_$p.log) $(grep ' quick: \| thorough: ' /var/tmp/${TAG}_$p.log | tail -1 | cut -c1-200)"
 done
